@@ -39,6 +39,7 @@ def run(ctx):
     ctx.rule("R03.f", "_call_watcher: a watcher is skipped iff (not TRIGGER and onlychanged and not changed); otherwise queued iff batching else executed (32 abstract cases, exhaustive)", floor=1)
     ctx.rule("R03.h", "flush model (abstract interpretation on small queues): every queued watcher runs exactly once in (precedence, queue position) order with the last event per watched parameter; cascaded events are delivered in a further round", floor=1)
     ctx.rule("R03.m", "setter model: Parameter.__set__ interpreted abstractly on every combination (576) of route x constant/readonly x validation outcome x identity x reference mode x watchers x batching agrees with the specification of this property (see checks/setter_model.py)", floor=1)
+    ctx.rule("R03.t", "trigger model: Parameters.trigger interpreted abstractly (instance/class x names incl. an Event and an unknown name x an event and a watcher queued before x the update dispatches / queues / raises, 96 cases): update runs once, with the trigger flag raised and the parked queues empty, on the current values; on exit the flag is lowered, earlier queue entries survive, no watcher is queued twice; the write-back is inside a _syncing scope", floor=1)
     ctx.rule("R03.u", "update model: Parameters._update (behind update/trigger) flushes exactly once when outermost, never inside an enclosing batch, and only after the batching flag is lowered again, so that watchers called by the flush dispatch their own assignments depth-first", floor=1)
     ctx.not_decided += ["exactly-once delivery counts, depth-first cascades and queued semantics over all programs (need an executable reference semantics)"]
 
@@ -276,5 +277,7 @@ def run(ctx):
     # model-level rule, run last (see DESIGN §10)
     from checks import setter_model
     setter_model.report(ctx, "C03", "R03.m")
+    from checks import trigger_model
+    trigger_model.report(ctx, "C03", "R03.t")
     from checks import update_model
     update_model.report(ctx, "C03", "R03.u")
